@@ -8,6 +8,7 @@ package raft
 // verif hook points.
 
 import (
+	"regexp"
 	"context"
 	"encoding/binary"
 	"fmt"
@@ -63,6 +64,16 @@ func hashIDs(ids []uint64) uint64 {
 }
 
 func (f *recFSM) Update(cmd []byte) interface{} {
+	// a slow state machine: the harness can park Update (hold point "fsm.apply")
+	if c := curCluster.Load(); c != nil {
+		c.holdMu.Lock()
+		hold := c.holds[fmt.Sprintf("%d/fsm.apply", f.node)]
+		c.holdMu.Unlock()
+		if hold != nil {
+			c.pushEvent(event{kind: "held", nid: f.node, inc: f.inc, s: "fsm.apply"})
+			<-hold
+		}
+	}
 	f.mu.Lock()
 	defer f.mu.Unlock()
 	f.calls++
@@ -95,6 +106,16 @@ func (s recState) Persist(w io.Writer) error {
 func (s recState) Release() {}
 
 func (f *recFSM) Snapshot() (FSMState, error) {
+	// capturing the state of a big state machine takes time (hold point "fsm.snapshot")
+	if c := curCluster.Load(); c != nil {
+		c.holdMu.Lock()
+		hold := c.holds[fmt.Sprintf("%d/fsm.snapshot", f.node)]
+		c.holdMu.Unlock()
+		if hold != nil {
+			c.pushEvent(event{kind: "held", nid: f.node, inc: f.inc, s: "fsm.snapshot"})
+			<-hold
+		}
+	}
 	f.mu.Lock()
 	defer f.mu.Unlock()
 	f.calls++
@@ -669,12 +690,17 @@ func keyOfErr(err error) string {
 	if err == nil {
 		return "nil"
 	}
-	s := err.Error()
+	s := pathRe.ReplaceAllString(err.Error(), "<path>")
+	s = numRe.ReplaceAllString(s, "N")
 	if len(s) > 60 {
 		s = s[:60]
 	}
 	return s
 }
+
+// (keys must not carry temporary directory names or indexes)
+var pathRe = regexp.MustCompile(`/[^\s:]+`)
+var numRe = regexp.MustCompile(`[0-9]+`)
 
 // checkExits notices nodes whose Serve returned on its own (removed, or error).
 func (c *cluster) checkExits() {
